@@ -4,16 +4,38 @@ import json, os
 V = os.path.dirname(os.path.dirname(os.path.abspath(__file__)))
 BASE = "cd /repo && cargo nextest run --workspace --no-fail-fast --offline || cargo test --workspace --no-fail-fast --offline"
 
+AI = "finite abstract interpretation of the typed tree (rustc THIR facts): every path of the anchored functions over lazily forked abstract inputs (value presence, links, prefix relations)"
+TB = "trusted: rustc nightly front end (THIR/typeck/MIR), pt/models.py (std + arena + Prefix oracle models)"
 CLAIMED = {
  # id: (technique, level text, level note, design ref)
- "C04": ("finite abstract interpretation of the typed tree (THIR): presence/counter effect pairing on every path of every "
-         "function whose MIR mutably uses Node::value or writes PrefixMap::count; handle typestate through the only constructor",
+ "C01": (AI + "; certificate walk: the answer / effect of each exact-match observer, mutator and Entry-API path must be justified by the facts its own path examined",
+         "Per-step decision (not the induction over histories): observers return the tabulated projection of the query's node iff it holds a value and the absent answer only "
+         "with a certificate of absence; insert / Entry API / remove / remove_keep_tree return the ordered-map answer and change exactly the query's node or create one node with the query and the given value; "
+         "no slot leaves the tree with possibly live entries; no exported signature leaks &mut Option/Node/Table.",
+         TB + "; assumes C15 (well-formed pre-state) and C17 (prefix algebra)", "DESIGN.md §6 C01"),
+ "C02": (AI + "; certificate walk over the covering chain",
+         "For every path of get_lpm/get_lpm_prefix/get_lpm_mut/PrefixSet::get_lpm: the answer is the deepest valued node of the chain of nodes covering the query, every chain node's value was examined, the end of the chain is certified, no effect. "
+         "Value-less leftover nodes are ordinary abstract inputs, so shape independence is part of every path.",
+         TB + "; assumes C15, C17", "DESIGN.md §6 C02"),
+ "C04": (AI + ": presence/counter effect pairing on every path of every function whose MIR mutably uses Node::value or writes PrefixMap::count; handle typestate through the only constructor; bounded-exhaustive sub-trees for _retain",
          "Decides the inductive invariant count = #{nodes holding a value}: every path of every mutator changes both sides by the same "
          "amount (R04.1), borrowed OccupiedEntry handles keep their node valued (R04.2), freed slots are value-less (R04.3), "
          "len/is_empty read only the counter (R04.4), no exported signature leaks &mut Option/Node/Table (R04.5). Exhaustive over the "
          "abstract input classes of each function; not a proof of the whole-history statement beyond this induction step.",
-         "trusted: rustc front end facts, pt/models.py std model; D3 (TrieViewMut::remove/set) is an open known finding",
-         "DESIGN.md §6 C04"),
+         TB + "; D3 (TrieViewMut::remove/set) is an open known finding", "DESIGN.md §6 C04"),
+ "C09": (AI + "; certificate walk; composite program cover(); next()×3",
+         "get_spm*/set get_spm return the first valued node of the covering chain; the i-th next() of cover/cover_keys/cover_values/set cover on a fresh iterator returns the i-th valued chain node, then None (first 3 calls, descent depth 2 per call); unjustified answers are reported.",
+         TB + "; assumes C15, C17; bounded: 3 calls, 2 descent steps per call", "DESIGN.md §6 C09"),
+ "C12": (AI + "; certificate walk started at the view's own node for every relation between that node and the query",
+         "find / find_exact / find_lpm of TrieView and TrieViewMut and view_at / view_mut_at: answer position agrees with the certificate walk for covering, covered and disjoint queries; failure hands back the original view; answers not backed by examined facts are reported.",
+         TB + "; assumes C15, C17", "DESIGN.md §6 C12"),
+ "C15": (AI + "; link audit against the relation closure and branch-side rules; canonical pre-state ⇒ canonical post-state",
+         "Per step: every surviving link write has parent ⊋ child on the child's branch side (R15.1); root never freed/linked, prefixes only overwritten by an equal key (R15.2); insert / entry insertions / remove / bounded _retain keep touched nodes canonical from canonical pre-states (R15.3); value-only operations have no structural effect (R15.4). "
+         "The theorem over histories (identical to a freshly built map) is not mechanised.",
+         TB + "; assumes C17; _retain on bounded sub-trees (2 levels below the start node, with parent and grand-parent)", "DESIGN.md §6 C15"),
+ "C16": (AI + "; slot graph replay (links / free list / fresh slots) on every path",
+         "Partition invariant preserved per step: unlinked ⇒ freed exactly once or re-linked/queued; freed ⇒ not linked, nothing orphaned below; new_node grows only after free.pop()=None and overwrites all four fields of a recycled slot; clear resets arena, free list and root together; only tabulated functions push/pop/clear; nothing reachable from _retain allocates. The numeric bound is a corollary, not computed.",
+         TB + "; tree-shaped pre-state; _retain on bounded sub-trees", "DESIGN.md §6 C16"),
 }
 NOT_YET = {}
 
